@@ -18,6 +18,15 @@
 //     ONE OF THE VIOLATING values (usually there is exactly one).
 //   - errors raised while a type is attached (AddType compiles pair-ordering
 //     rules eagerly) count as the Check failure of the schema.
+//   - a rule that NAMES a type ({type: "@t"}, an or member "@t") is a rule like any
+//     other: the example must be a value of the named type, whatever rules the root
+//     of that type carries (bounds, enum, format, an or set, a further reference).
+//     A corrupted member of an or set at a type root that admits only REFERENCING
+//     values must be reported at one of those values; edits that make such a member
+//     ill-formed in itself (type of another kind next to other rules, min > max) are
+//     not used: that is a defect of the type, reported at the type.
+//   - (hist.go) the verdict for a root schema must not depend on which other root
+//     schemas share its type objects nor on the order in which they were checked.
 package c04
 
 import (
@@ -1102,10 +1111,16 @@ func oneKnown(i int) []outcome {
 
 const ruleText = "random example trees (objects/arrays/scalars, depth<=4, <=36 nodes, random leading blanks) whose nodes carry rule lists valid for their example: " +
 	"min/max with exclusive flags, precision(+decimal), minLength/maxLength, regex, inline enum, const, formats, declared types, nullable, optional, minItems/maxItems, additionalProperties, " +
-	"or sets (type names, rule-sets, enum rule-sets, user types; exactly one member admits the example), type:any, {type:@t} references to generated scalar types; inline and multi-line annotations. " +
+	"or sets (type names, rule-sets, enum rule-sets, user types; exactly one member admits the example), type:any, {type:@t} / or-member references to generated scalar types " +
+	"whose ROOT carries rules of every scalar kind (bounds, lengths, regex, enum, format, type any, an or set whose members admit the type's own example and the referencing values — possibly of another kind, by another member —, " +
+	"a reference to a further type; several values may name one type); inline and multi-line annotations. " +
 	"(a) Check ok => Validate(text without annotations) ok; nontrivial = Check ok and >=2 annotated nodes. " +
 	"(b) <=3 single-rule corruptions per good schema (second stream: schemas with `@t` value shortcuts to structured types, corruption only): Check must fail at the offset of a violating value; " +
-	"nontrivial = corrupted node nested, inside an added type, or inside an or member. (k) dedicated stream of the known finding K-C04-or-minitems."
+	"(a rule at the root of a type is corrupted so that the type's own example and/or the values that reach it through references violate it); " +
+	"nontrivial = corrupted node nested, inside an added type, or inside an or member. (k) dedicated stream of the known finding K-C04-or-minitems. " +
+	"(h) histories: 2-3 root schemas sharing type OBJECTS (a shared structure placed by shortcut whose scalars name scalar types; scalar types naming types), each root binding the names to its own or shared objects, " +
+	"some roots with one corrupted binding violated by a value inside a shared object; build/Check calls in several orders and their reverses: every root's Check must fail at the violating value / succeed exactly as with fresh objects; " +
+	"nontrivial = good and bad roots sharing at least one object."
 
 // Run is the entry point of `vh c04-check-example`.
 func Run(args []string) {
